@@ -350,7 +350,7 @@ type mboxRec struct {
 	Acct string   `json:"acct"`
 	Name []string `json:"name"`
 	Spc  string   `json:"spc"`
-	Uv   int      `json:"uv"`
+	Uv   string   `json:"uv"`
 	Next int      `json:"next"`
 }
 type msgRec struct {
@@ -505,7 +505,7 @@ func (e *env) snapshot() (*snapshot, error) {
 				e.uv[status.UidValidity] = len(e.uv) + 1
 			}
 			path := strings.Split(mi.Name, ".")
-			s.Mboxes = append(s.Mboxes, mboxRec{Acct: nameID(a), Name: path, Spc: spc, Uv: e.uv[status.UidValidity], Next: int(status.UidNext)})
+			s.Mboxes = append(s.Mboxes, mboxRec{Acct: nameID(a), Name: path, Spc: spc, Uv: fmt.Sprintf("u%d", status.UidValidity), Next: int(status.UidNext)})
 
 			// the mailbox is opened by its listed name; a listed name that cannot be opened as such
 			// (e.g. a second mailbox called "inbox") is reported with a marker message
